@@ -13,7 +13,7 @@ import (
 
 func init() {
 	Register(&PropDef{
-		ID: "C14", QuickRuns: 2400, Level: "exploration",
+		ID: "C14", QuickRuns: 4800, Level: "exploration",
 		Rule: "one run = 1-3 sessions on the BESS datapath (end markers enabled or disabled) and 4-20 Session Modifications that update FARs: tunnel changes to another gNB / TEID, send-end-marker flag on or off, unknown FAR ids, two FARs in one message, updates of FARs that had no tunnel before, creations. Oracle at the end-marker unix socket: packets decoded in the harness (Ethernet/IPv4/UDP/GTPv1-U): exactly one End Marker per flagged FAR whose update was accepted, addressed to the tunnel the FAR had before the update (peer address, TEID), UDP ports 2152, source = N3 address, and written after the simulated BESS acknowledged the new FAR; none otherwise. Non-trivial = at least one end marker expected and >20 task switches; distinct = different sequence of (update kind, flag, expected markers).",
 		Assume: []string{"the order between the end-marker write and the FAR command is judged by a global stamp taken when the simulated daemon applies the command and when the socket write happens"},
 		Real: CommonReal, Simulated: CommonSim,
